@@ -17,6 +17,8 @@ def assigned_names(nodes):
   out = set()
   for n in nodes:
     for sub in ast.walk(n):
+      if isinstance(sub, (ast.Yield, ast.YieldFrom)):
+        out.add('yielded')
       if isinstance(sub, (ast.Assign, ast.AugAssign, ast.AnnAssign, ast.For,
                           ast.NamedExpr, ast.With, ast.Delete)):
         tgts = []
@@ -116,6 +118,12 @@ class StmtMixin:
     if isinstance(st.value, ast.Constant):
       return  # docstring
     if self._is_log_call(st.value):
+      return
+    if isinstance(st.value, ast.Yield) and getattr(self, 'is_generator', False) and self.depth == 0:
+      ys = self.env['yielded']
+      x = self.coerce(self.eval(st.value.value), ys.sort.elem)
+      n = ys.sort.len(ys.t)
+      self.env['yielded'] = V(ys.sort, ys.sort.mk(z3.Store(ys.sort.arr(ys.t), n, x.t), n + 1))
       return
     self.eval(st.value)
 
